@@ -90,6 +90,16 @@ class Notations:
         if k == 'name':
             if v[1] in ('phi0', 'phi1', 'phi2'):
                 return MV(int(v[1][3]))
+            # a module-level constant (`PROP1_SCHEMA = Implies(..)`), defined in `module`, imported into it, or - failing that -
+            # defined under that name in exactly one module: its defining expression
+            hit = self._module_constant(v[1], module)
+            if hit is not None:
+                val, home = hit
+                seen = env.get('#resolving', ())
+                if v[1] not in seen:
+                    env2 = dict(env)
+                    env2['#resolving'] = seen + (v[1],)
+                    return self.term(val, home, env2)
             raise AnalysisError(f'unknown pattern name {v[1]}')
         if k == 'const' and isinstance(v[1], (int, str)):
             return ('int', v[1]) if isinstance(v[1], int) else ('str', v[1])
@@ -124,6 +134,38 @@ class Notations:
             if fn in ('imp',):
                 return ('P', 'Implies', self.term(v[2][0], module, env), self.term(v[2][1], module, env))
         raise AnalysisError(f'not a pattern term: {show(v)}')
+
+    def _module_constant(self, name: str, module: str):
+        """(pyeval value of the defining expression, module it is defined in) of a module-level `NAME = <expr>` bound once"""
+        def defined_in(mname):
+            mi = self.py.modules.get(mname)
+            if mi is None:
+                return None
+            nodes = [n for n in mi.assign_nodes if isinstance(n.targets[0] if isinstance(n, ast.Assign) else n.target, ast.Name)
+                     and (n.targets[0] if isinstance(n, ast.Assign) else n.target).id == name and n.value is not None]
+            return nodes[0].value if len(nodes) == 1 else None
+        home = None
+        mi = self.py.modules.get(module)
+        expr = defined_in(module)
+        if expr is not None:
+            home = module
+        elif mi is not None and name in mi.imports:
+            src_mod, orig = mi.imports[name]
+            cands = [m for m in self.py.modules if m == src_mod or src_mod.endswith('.' + m) or m.endswith('.' + src_mod)]
+            for m in cands:
+                if orig == name and defined_in(m) is not None:
+                    expr, home = defined_in(m), m
+                    break
+        if expr is None:
+            homes = [m for m in self.py.modules if defined_in(m) is not None]
+            if len(homes) == 1:
+                expr, home = defined_in(homes[0]), homes[0]
+        if expr is None:
+            return None
+        try:
+            return PyEval().expr(expr, {}, []), home
+        except Decline:
+            return None
 
     def scalar(self, a, env):
         if a in env:
